@@ -7,6 +7,7 @@ from ..harness import Harness
 from ..stypes import STYPES, parse_expr, show_expr, prelude_for, model_val, canon_model_out
 from . import binops as B
 from . import convx as X
+from .. import progs as PG
 
 PROPS = "theories/Props/C09.v"
 MODULE = "Props.C09"
@@ -206,12 +207,41 @@ def run(ctx):
     cov["rule"] = ("point (24 units; quick: K, degC, degF, degR, mK, kK + 3 rotating) +/- interval (24 units; quick: K, degC, degF + 1 rotating) with + - += -= and "
                    "interval + point, f64/f32/BigRational, temperature base units kelvin/millikelvin/kilokelvin on either side (5 ordered pairs); values incl. "
                    "-273.15, -40, 0, -0.0, 1e6; each stage (stored point, stored interval, stored result, read-back) compared with the extracted model; "
-                   "read-back compared with t +/- delta k'/k exactly (BigRational) / to 64 ulps of the largest term (floats)")
+                   "read-back compared with t +/- delta k'/k exactly (BigRational) / to 64 ulps of the largest term (floats); programs: From/Into between point and interval in "
+                   "every direction and base combination, point +/- point, point +/- interval, interval - point, negation, with positive controls, judged by rustc with "
+                   "and without autoconvert against the typing model")
     cov["spec_checked"] = checked
     cov["spec_skipped_exact_intermediate_out_of_range"] = out_of_range
     cov["disagreements_checked"] = len(disagreements)
     cov["spec_failures"] = len(spec_fail)
     cov["histogram"] = dict(sorted(hist.items())[:40])
+    # programs: no conversion between a point and an interval, no point +/- point (rustc vs the typing model), with positive controls
+    from . import c01 as C01
+    qts = {q.module: q for q in C01.quantity_types(t)}
+    tt0, ti0 = qts["thermodynamic_temperature"], qts["temperature_interval"]
+    tt1, ti1 = PG.QT(tt0.dims, tt0.kind, 1, tt0.module, tt0.alias), PG.QT(ti0.dims, ti0.kind, 1, ti0.module, ti0.alias)
+    progs = []
+    for a_, b_ in [(tt0, ti0), (ti0, tt0), (tt0, ti1), (ti1, tt0), (tt1, ti0), (ti0, tt1)]:
+        progs += [PG.P_from(a_, b_, "from"), PG.P_from(a_, b_, "into")]
+    for a_, b_ in [(tt0, tt0), (tt0, tt1), (tt0, ti0), (tt0, ti1), (ti0, tt0), (ti1, tt0), (ti0, ti0)]:
+        progs += [PG.P_additive(o, a_, b_) for o in ("add", "sub", "addas", "subas")]
+    progs += [PG.P_from(tt0, tt0, "from"), PG.P_from(ti0, ti0, "into"), PG.P_from(qts["angle"], qts["ratio"], "from"), PG.P_from(qts["ratio"], qts["angle"], "into"),
+              PG.P_unary("neg", tt0), PG.P_unary("neg", ti0)]
+    must_reject = set(range(12)) | {i for i in range(12, 12 + 28) if progs[i].sexp.count("TemperatureKind") == 2}   # conversions; point (+|-) point
+    st1, _, rv1 = C01.compare(ctx, t, progs, ["autoconvert", "f64", "si", "std"], True, True, "c09p", "C09: which point/interval programs exist")
+    st2, _, rv2 = C01.compare(ctx, t, progs, ["f64", "si", "std"], False, True, "c09pn", "C09 (autoconvert disabled): which point/interval programs exist")
+    # the property's own oracle, independent of the regenerated tables: these programs must not exist
+    for label, rv, feats in (("autoconvert", rv1, ["autoconvert", "f64", "si", "std"]), ("no autoconvert", rv2, ["f64", "si", "std"])):
+        for i in sorted(must_reject):
+            if rv.get(i, (None,))[0] is True:
+                ctx.violation({"kind": "program", "spec": "C09: no operation lets an offset be applied twice or to an interval - this program must not compile",
+                               "program": progs[i].rust_fn(f"p{i}"), "note": progs[i].note if hasattr(progs[i], "note") else "", "features": feats,
+                               "detail": f"rustc accepts it ({label})",
+                               "how_to_replay": "put PRELUDE (vlib/progs.py) and this function into a crate depending on uom (path /repo) with the listed features; cargo check"})
+                break
+    cov["programs"] = 2 * len(progs)
+    cov["rustc"] = {"autoconvert": st1, "no_autoconvert": st2}
+    cov["disagreements_checked"] = cov.get("disagreements_checked", 0) + st1["mismatches"] + st2["mismatches"]
     smp = ctx.rng.fork("samples").sample(cases, 6)
     cov["samples"] = [{"storage": meta[c][0], "bases": [meta[c][1], meta[c][2]], "point_unit": meta[c][3]["name"], "interval_unit": meta[c][4]["name"], "args": a,
                        "implementation": impl.get(c)} for c, _, a in smp]
